@@ -32,13 +32,7 @@ NPIX = NX * NY
 # against the parsed header in fixture_ok)
 COL = {'slice': 0, 'echo': 1, 'dyn': 2, 'phase': 3, 'type': 4, 'seq': 5, 'index': 6, 'pixsize': 7,
        'recon_x': 9, 'recon_y': 10, 'ri': 11, 'rs': 12, 'ss': 13, 'bvalnr': 41, 'gradnr': 42, 'label': 48}
-S_C20B = ('strict_sort=True with permit_truncated: an incomplete volume that is not last in key order makes '
-          'vol_numbers() pair its missing slice with the next volume - returned volumes mix slices of '
-          'different echo/type/dynamic labels (silent)')
 
-
-S_C20C = ('permit_truncated with NO complete volume among the records (n_vols = 0): the shape falls back to 3-D and the '
-          'first n_slices sorted records - slices of incomplete volumes - are returned, with a warning only')
 
 
 # --------------------------------------------------------------------------- fixtures
@@ -363,7 +357,7 @@ def impl_load(text, rec, strict, permit, fp):
                                             scaling='fp' if fp else 'dv', strict_sort=strict)
     except PARRECError as e:
         o['status'] = 'err truncated' if ('Header inconsistency' in str(e) or 'partial volume' in str(e)) \
-            else 'err other:' + str(e)[:80]
+            else 'err no_volume' if 'No complete volume' in str(e) else 'err other:' + str(e)[:80]
         return o
     except ValueError as e:
         o['status'] = 'err slice_range' if 'Slice numbers outside' in str(e) else 'err other:' + str(e)[:80]
@@ -567,20 +561,6 @@ def pred_complete_only(o, f, present):
     return None
 
 
-def sc20b_shape(f, present, keys_by_id):
-    """structural signature of S-C20b: in stage-1 key order a volume (label group) is followed by a
-    group holding a slice number the earlier one lacks"""
-    groups = {}
-    for i in present:
-        groups.setdefault(tuple(reversed(keys_by_id[i][1:])), set()).add(f.slices[i])
-    seq = [groups[k] for k in sorted(groups)]
-    for a in range(len(seq)):
-        for b in range(a + 1, len(seq)):
-            if seq[b] - seq[a]:
-                return True
-    return False
-
-
 # --------------------------------------------------------------------------- one case
 def eval_case(chk, case, fx, ref_cache):
     """runs the implementation on a case; returns (impl observables, model inputs, predicate failure, tags)"""
@@ -635,16 +615,14 @@ def predicates(case, o, info, f, ref):
             have.setdefault(f.tv[i], set()).add(f.slices[i])
         ncomplete = sum(1 for s in have.values() if s == set(range(1, f.smax + 1)))
         if ncomplete == 0:
-            if o['payload']:
-                out.append(('truncated_complete_only', f"no recorded volume is complete but {len(o['payload'])} slices "
-                            'are returned', 'S-C20c'))
+            # S-C20c, repaired: a recording without any complete volume is refused (PARRECError), never loaded
+            out.append(('truncated_complete_only', f"no recorded volume is complete but {len(o['payload'])} slices "
+                        'are returned', None))
         else:
+            # S-C20b, repaired: also when the incomplete volumes are not last in key order
             m = pred_complete_only(o, f, info['present'])
             if m:
-                known = None
-                if case['strict'] and info['truncated'] and sc20b_shape(f, info['present'], info['keys_by_id']):
-                    known = 'S-C20b'
-                out.append(('truncated_complete_only', m, known))
+                out.append(('truncated_complete_only', m, None))
     return out
 
 
@@ -680,10 +658,10 @@ def run(chk: Check):
                     'fone fdiv fmul), NumPy fancy indexing rec[..., idx] and F-order reshape, the PAR text parser '
                     '(parse_PAR_header, used to derive the model inputs)']
     chk.extra['unproved_statements'] = [
-        'C20_labelled_blocks / C20_strict_labelled_volumes / C20_strict_load_by_label derive the block shape of the key '
-        'order from a condition on the record list (keyed) when EVERY label group is complete; for a recording whose '
-        'last group in key order is incomplete the shape is still a hypothesis of C20_strict_complete_volumes '
-        '(stage1 recs = concat Gs ++ T) - exercised by the direct predicate truncated_complete_only on every case']
+        'label-level theorems (C20_strict_label_volumes, C20_strict_load_by_label) assume pairwise distinct key tuples; for '
+        'recordings whose keys cannot tell volumes apart (V4 diffusion: repeats counted within a key group) only '
+        'C20_truncated_complete_only / C20_own_factors apply - those cases are compared with the model (correspondence) '
+        'and checked for own factors on every run']
     chk.build()
     chk.run_probes()
     if not chk.model_ok:
@@ -788,10 +766,6 @@ def run(chk: Check):
                     dis = ('load:' + ','.join(bad), mout[:300], (line % nv)[:300])
         fails = predicates(case, o, info, f, lambda: reference(case, fx, ref_cache))
         genuine = [x for x in fails if x[2] is None]
-        for name, msg, known in fails:
-            if known:
-                chk.known(known, S_C20B if known == 'S-C20b' else S_C20C)
-                chk.tagc('known:' + known)
         for name, msg, _ in genuine[:1]:
             chk.violation('property_violation', case=describe(case, info), predicate=f'{name}: {msg}',
                           impl_output={'idx': o.get('idx'), 'payload': o.get('payload'), 'shape': o.get('shape')},
